@@ -80,6 +80,23 @@ func (e *connStatus) OutagesWithoutLock() uint64 {
 	return e.outages
 }
 
+// MarkOutageSince is called by a request that failed with a connection-closed error on a wire connection it took when
+// `seen` outages had been counted. If no outage has been declared since, the failure is news and the status becomes
+// Reconnecting; otherwise the error is a late echo of an outage that is already being (or has been) dealt with and the status
+// is left alone (taking it for a new outage would tear down the healthy connection that replaced the failed one).
+// It returns false when the connection is closed.
+func (e *connStatus) MarkOutageSince(seen uint64) bool {
+	e.Lock()
+	defer e.Unlock()
+	if e.IsWithoutLock(connStatusClosed) {
+		return false
+	}
+	if e.outages == seen {
+		e.SwapWithoutLock(connStatusReconnecting)
+	}
+	return true
+}
+
 func (e *connStatus) SwapWithoutLock(state connStatusValue) (old connStatusValue) {
 	old = e.current
 	if state == connStatusReconnecting && old != connStatusReconnecting {
